@@ -39,3 +39,5 @@ pub fn verif_canary_must_fail() {
 mod playback;
 #[path = "/verif/harness/c21.rs"]
 mod c21;
+#[path = "/verif/harness/c19.rs"]
+mod c19;
